@@ -346,7 +346,17 @@ move_stream_files(const char *thdir, const char *thdir_final, int only_json)
 
 	struct dirent *dirent;
 	const char *prefix = "stream.";
-	while ((dirent = readdir(dir)) != NULL) {
+	while (1) {
+		/* Tell apart the end of the directory from an error */
+		errno = 0;
+		if ((dirent = readdir(dir)) == NULL) {
+			if (errno != 0) {
+				err("readdir %s failed:", thdir);
+				ret = -1;
+			}
+			break;
+		}
+
 		/* It should only contain stream.* directories, skip others */
 		if (strncmp(dirent->d_name, prefix, strlen(prefix)) != 0)
 			continue;
